@@ -22,6 +22,53 @@ pub enum Kind
 /// Edge label between containers: 0 none, 1 real containment, 2 through a pointer (does not count).
 pub fn graph_program(kinds: &[Kind], edges: &[Vec<u8>], order: &[usize]) -> String
 {
+	let decls = graph_decls(kinds, edges);
+	let mut text = String::new();
+	for i in order
+	{
+		text.push_str(&decls[*i]);
+	}
+	text
+}
+
+/// Declarations that have nothing to do with the containers of a graph program: each is valid on
+/// its own and uses names of its own. Placed between the declarations of a graph program they must
+/// not change its verdict (no state of the compiler may leak from one declaration into the next).
+pub const BYSTANDERS: [(&str, &str); 9] = [
+	("function with a slice pointer parameter", "fn by0(p: &[]u8)\n{\n}\n"),
+	("function with a pointer parameter", "fn by1(p: &i32)\n{\n}\n"),
+	("structure with a pointer member", "struct By2\n{\n\tp: &i32,\n}\n"),
+	("constant holding the size of a pointer", "const BY3: usize = |:&i32|;\n"),
+	("function measuring a local array", "fn by4()\n{\n\tvar v: [2]i32 = [1, 2];\n\tvar n: usize = |v|;\n}\n"),
+	("opaque structure", "struct By5;\n"),
+	("word", "word32 By6\n{\n\ta: i32,\n}\n"),
+	("external head with a slice pointer parameter", "extern fn by7(p: &[]u8);\n"),
+	("function with a view parameter and a structure literal", "struct By8\n{\n\ta: i32,\n}\nfn by8(v: []i32) -> i32\n{\n\tvar s: By8 = By8 { a: 1 };\n\treturn: s.a\n}\n"),
+];
+
+/// The graph program with a bystander declaration in front of the `at`-th declaration of the order.
+pub fn graph_program_with_bystander(kinds: &[Kind], edges: &[Vec<u8>], order: &[usize], bystander: usize, at: usize) -> String
+{
+	let decls = graph_decls(kinds, edges);
+	let mut text = String::new();
+	for (k, i) in order.iter().enumerate()
+	{
+		if k == at
+		{
+			text.push_str(BYSTANDERS[bystander].1);
+		}
+		text.push_str(&decls[*i]);
+	}
+	if at >= order.len()
+	{
+		text.push_str(BYSTANDERS[bystander].1);
+	}
+	text
+}
+
+/// The declarations of a graph program: one per container, then `main`.
+pub fn graph_decls(kinds: &[Kind], edges: &[Vec<u8>]) -> Vec<String>
+{
 	let n = kinds.len();
 	let name = |i: usize| match kinds[i]
 	{
@@ -68,12 +115,7 @@ pub fn graph_program(kinds: &[Kind], edges: &[Vec<u8>], order: &[usize]) -> Stri
 		}
 	}
 	decls.push("fn main() -> i32\n{\n\treturn: 0\n}\n".to_string());
-	let mut text = String::new();
-	for i in order
-	{
-		text.push_str(&decls[*i]);
-	}
-	text
+	decls
 }
 
 /// Which cycle codes the model expects: empty = acyclic (must be accepted).
@@ -201,6 +243,27 @@ pub fn drive(d: &mut Driver)
 		}
 	}
 	d.phase("dependency graphs x permutations", jobs);
+	// bystanders: unrelated declarations between the declarations of every graph program
+	let by_sizes: Vec<(usize, bool)> = if quick { vec![(1, true), (2, true)] } else { vec![(1, true), (2, true), (3, false)] };
+	d.bound("graphs with bystanders: (containers, pointer edges included)", json!(by_sizes));
+	d.bound("bystander declarations (each in front of every declaration and at the end, in every order)", json!(BYSTANDERS.iter().map(|b| b.0).collect::<Vec<_>>()));
+	let mut jobs = Vec::new();
+	for (n, ptr) in &by_sizes
+	{
+		for mask in 0..(1usize << n)
+		{
+			let kinds = kinds_of(*n, mask);
+			let count = graph_count(*n, *ptr, &kinds);
+			let chunk = if *n >= 3 { 8u64 } else { 16 };
+			let mut lo = 0;
+			while lo < count
+			{
+				jobs.push(json!({"space": "bystanders", "n": n, "mask": mask, "ptr": ptr, "lo": lo, "hi": (lo + chunk).min(count)}));
+				lo += chunk;
+			}
+		}
+	}
+	d.phase("dependency graphs x permutations x bystander declarations", jobs);
 	d.phase("duplicate names, type legality per position, word sizes", vec![json!({"space": "duplicates"}), json!({"space": "legality"}), json!({"space": "words"})]);
 	let depth = 3usize;
 	let nterms = deep_terms(depth).len();
@@ -242,6 +305,36 @@ pub fn work(spec: &Value, w: &mut WorkerCtx)
 				w.result.transitions += texts.len() as u64;
 				let what = if expect.is_empty() { "acyclic graph".to_string() } else { format!("cyclic graph (model: {model:?})") };
 				judge_orders(&texts, Some(expect), &what, w);
+			}
+		}
+		"bystanders" =>
+		{
+			// every graph x every order x every bystander x every position: the verdict and the codes
+			// must be those of the program without the bystander
+			let n = spec["n"].as_u64().unwrap() as usize;
+			let mask = spec["mask"].as_u64().unwrap() as usize;
+			let ptr = spec["ptr"].as_bool().unwrap();
+			let kinds = kinds_of(n, mask);
+			let perms = permutations(n + 1);
+			for code in spec["lo"].as_u64().unwrap()..spec["hi"].as_u64().unwrap()
+			{
+				let edges = decode_graph(n, code, ptr, &kinds);
+				let model = cycle_codes(&kinds, &edges);
+				let expect: Vec<u16> = if model.is_empty() { vec![] } else { vec![413, 415, 416] };
+				for b in 0..BYSTANDERS.len()
+				{
+					let mut texts: Vec<String> = Vec::new();
+					for p in &perms
+					{
+						for at in 0..=p.len()
+						{
+							texts.push(graph_program_with_bystander(&kinds, &edges, p, b, at));
+						}
+					}
+					w.result.transitions += texts.len() as u64;
+					let what = format!("{} graph with a bystander ({}) :: graph {code} of {n} containers, kinds {mask}", if expect.is_empty() { "acyclic" } else { "cyclic" }, BYSTANDERS[b].0);
+					judge_orders(&texts, Some(expect.clone()), &what, w);
+				}
 			}
 		}
 		"sparse4" =>
